@@ -203,3 +203,236 @@ class ComputeStatisticChunked(FnContract):
 
 
 CONTRACTS = [ComputeStatisticChunked()]
+
+
+# =================================================================================================
+# The selection path of Data.compute_statistic (no chunking): minimal sub-array of the selected region, view recombination, padding.
+# Arrays are opaque tokens; what is proved is the *index bookkeeping*: the data are fetched on exactly the box the mask was cut to, and
+# the reduced result is put back at exactly that box in a NaN array of the reduced shape of the viewed array.
+
+class _Tok(PObj):
+    pass
+
+
+def tok(kind, **fields):
+    return _Tok(kind, fields=fields)
+
+
+class ComputeStatisticSubarray(FnContract):
+    property_ids = ('C10', 'C04')
+    target = DATA + ":Data.compute_statistic"
+    title = ("with a selection: the mask is cut to its bounding box, the values are fetched on exactly that box of the viewed array (view start + box, "
+             "integers kept), the reducer gets both with the caller's axis and filters, and the reduced result is placed at the box inside a NaN "
+             "array of the reduced shape of the viewed array; stepped views are reduced whole; an empty selection gives NaN of the reduced shape")
+    budget_s = 60
+
+    # per data axis: 'N' (view is None), 's' slice(start, stop), 'i' integer, 'a' absent (short tuple), 'p' stepped slice
+    def configs(self, tier):
+        out = []
+        views = ['N', 'NN', 'NNN', 's', 'ss', 'sa', 'is', 'si', 'sss', 'sis', 'ssa', 'saa', 'iss', 'ps', 'sp']
+        for v in views:
+            nm = sum(1 for c in v if c != 'i')               # rank of the viewed array
+            axes = [None] + list(range(nm)) + [tuple(range(nm))] + ([tuple(range(1, nm))] if nm > 1 else []) + [()]
+            if tier == 'quick' and len(v) == 3:
+                axes = [None, 0, tuple(range(1, nm)) if nm > 1 else (0,)]
+            for ax in axes:
+                out.append(dict(view=v, axis=repr(ax), selected='some'))
+            out.append(dict(view=v, axis=repr(None), selected='none'))
+            out.append(dict(view=v, axis=repr(0), selected='none'))
+        return out
+
+    def inputs(self, cfg, P):
+        v = cfg['view']
+        d = len(v)
+        axis = eval(cfg['axis'])
+        shape = tuple(z3.Int('n%d' % i) for i in range(d))
+        # the caller's view
+        entries = []
+        for i, c in enumerate(v):
+            if c in 's':
+                entries.append(PSlice(z3.Int('start%d' % i), z3.Int('stop%d' % i), None))
+            elif c == 'p':
+                entries.append(PSlice(z3.Int('start%d' % i), z3.Int('stop%d' % i), 2))
+            elif c == 'i':
+                entries.append(z3.Int('index%d' % i))
+            elif c == 'a':
+                break
+        view = None if v[0] == 'N' else tuple(entries)
+        mask_axes = [i for i, c in enumerate(v) if c != 'i']       # data axis of each axis of the viewed array
+        m = [z3.Int('m%d' % j) for j in range(len(mask_axes))]      # extents of the viewed array (= of the mask)
+        lo = [z3.Int('lo%d' % j) for j in range(len(mask_axes))]
+        hi = [z3.Int('hi%d' % j) for j in range(len(mask_axes))]
+        st = St(d=d, v=v, axis=axis, shape=shape, view=view, entries=entries, mask_axes=mask_axes, m=m, lo=lo, hi=hi, fetched=[], reduced=[], full=[], assigned=[],
+                any_selected=z3.Bool('something_selected'))
+        mask = tok('mask', ndim=len(m), shape=tuple(m))
+
+        def getitem(I, self_, key):
+            return tok('submask', of=self_, key=key)
+        mask.methods['__getitem__'] = getitem
+        st.mask = mask
+        state = PObj('SubsetState', fields={'__bases__': ('SubsetState',)})
+        state.methods['__bool__'] = lambda I, s: True
+        state.methods['to_mask'] = lambda I, s, data, view_=None: mask if (view_ is view or view_ == view) else _unsup("to_mask with another view")
+        data = PObj('Data', fields={'ndim': d, 'shape': shape, 'size': z3.Int('size')})
+
+        def get_data(I, self_, cid, view=None):
+            t = tok('values', view=view, size=z3.Int('fetched_size'), shape=PObj('fetched-shape'))
+            st.fetched.append((cid, view, t))
+            return t
+        data.methods['get_data'] = get_data
+        st.data, st.state, st.cid = data, state, PObj('ComponentID')
+        return Inputs([data, 'STAT', st.cid], dict(subset_state=state, axis=axis, finite='FINITE', positive='POSITIVE', percentile='PCT', view=view, random_subset=None,
+                                                   n_chunk_max=z3.Int('n_chunk_max')), st=st)
+
+    def requires(self, cfg, st):
+        r = [('extents>=1', S.And(*[n >= 1 for n in st.shape])), ('no-chunking', st.data.fields['size'] <= z3.Int('n_chunk_max'))]
+        # the mask has the shape of the viewed array (contract of to_mask, C04)
+        for j, a in enumerate(st.mask_axes):
+            c = st.v[a]
+            if c in 'sp':
+                e = st.entries[a]
+                b, en, _ = S.slice_indices(PSlice(e.start, e.stop, None if c == 's' else 2), st.shape[a])
+                r.append(('mask-extent-%d-is-the-view-length' % j, st.m[j] == S.range_len(b, en, 1 if c == 's' else 2)))
+            else:
+                r.append(('mask-extent-%d-is-the-full-extent' % j, st.m[j] == st.shape[a]))
+            r.append(('bounding-box-%d-inside-the-mask' % j, S.And(0 <= st.lo[j], st.lo[j] < st.hi[j], st.hi[j] <= st.m[j])))
+        for a, c in enumerate(st.v):
+            if c == 'i':
+                r.append(('index-%d-valid' % a, S.And(-st.shape[a] <= st.entries[a], st.entries[a] < st.shape[a])))
+        r.append(('selection-%s' % cfg['selected'], st.any_selected if cfg['selected'] == 'some' else z3.Not(st.any_selected)))
+        return r
+
+    def globals_(self, cfg, st):
+        def b_isinstance(I, v, t):
+            ts = t if isinstance(t, tuple) else (t,)
+            for x in ts:
+                nm = getattr(x, 'name', None)
+                if nm == 'list' and isinstance(v, PList):
+                    return True
+                if nm == 'tuple' and isinstance(v, tuple):
+                    return True
+                if nm == 'int' and (isinstance(v, int) and not isinstance(v, bool)):
+                    return True
+                if nm == 'slice' and isinstance(v, PSlice):
+                    return True
+                if isinstance(v, PObj) and nm in v.fields.get('__bases__', ()):
+                    return True
+            return False
+
+        def unbroadcast(I, a):
+            if isinstance(a, _Tok) and a.cls == 'mask':
+                t = tok('unbroadcast-mask', of=a)
+                t.methods['any'] = lambda I2, s, axis=None: tok('valid', collapse=axis)
+                return t
+            return a
+
+        def np_any(I, a):
+            return st.any_selected
+
+        def broadcast_to(I, a, shp):
+            if isinstance(a, _Tok) and a.cls == 'valid':
+                return a
+            return tok('broadcast', value=a, shape=shp)
+
+        def where(I, valid):
+            nm = len(st.m)
+            col = valid.fields['collapse']
+            col = tuple(col) if isinstance(col, tuple) else (col,)
+            j = [k for k in range(nm) if k not in col]
+            I.path.check(I.hooks.name + "/bounding-box:one-axis-kept-per-projection", len(j) == 1)
+            return (tok('indices', j=j[0]),)
+
+        def np_min(I, idx):
+            return st.lo[idx.fields['j']]
+
+        def np_max(I, idx):
+            return st.hi[idx.fields['j']] - 1
+
+        def reducer(I, statistic, data, mask=None, axis=None, finite=True, positive=False, percentile=None):
+            t = tok('reduced', data=data, mask=mask, axis=axis, rest=(statistic, finite, positive, percentile))
+            st.reduced.append(t)
+            return t
+
+        def full(I, shp, value):
+            t = tok('full', shape=shp, value=value)
+            t.methods['__setitem__'] = lambda I2, s, key, val: st.assigned.append((s, key, val))
+            st.full.append(t)
+            return t
+        return {'isinstance': Builtin('isinstance', b_isinstance), 'SliceSubsetState': PType('SliceSubsetState'), 'categorical_ndarray': PType('categorical_ndarray'),
+                'unbroadcast': Builtin('unbroadcast', unbroadcast), 'numpy.any': Builtin('np.any', np_any), 'numpy.broadcast_to': Builtin('np.broadcast_to', broadcast_to),
+                'numpy.where': Builtin('np.where', where), 'numpy.min': Builtin('np.min', np_min), 'numpy.max': Builtin('np.max', np_max),
+                'numpy.nan': 'NAN', 'numpy.full': Builtin('np.full', full), 'compute_statistic': Builtin('compute_statistic', reducer),
+                'DASK_INSTALLED': False, 'int': PType('int'), 'slice': PType('slice'), 'list': PType('list'), 'tuple': PType('tuple')}
+
+    def ensures(self, cfg, st, result):
+        axis = st.axis
+        nm = len(st.m)
+        axes = None if axis is None else ((axis,) if isinstance(axis, int) else tuple(axis))
+        kept = [j for j in range(nm) if axes is None or j not in axes]
+        if cfg['selected'] == 'none':
+            if axis is None:
+                return [('nothing-selected:NaN', result == 'NAN'), ('nothing-fetched', st.fetched == [])]
+            ok = isinstance(result, _Tok) and result.cls == 'broadcast' and result.fields['value'] == 'NAN'
+            shp = result.fields['shape'] if ok else None
+            items = shp.items if isinstance(shp, PList) else (list(shp) if isinstance(shp, (list, tuple)) else None)
+            return [('nothing-selected:NaN-array', ok),
+                    ('nothing-selected:reduced-shape-of-the-viewed-array', items is not None and len(items) == len(kept) and S.And(*[x == st.m[j] for x, j in zip(items, kept)]) if items is not None else False)]
+        stepped = 'p' in st.v
+        out = [('reduced-once', len(st.reduced) == 1), ('values-fetched-once', len(st.fetched) == 1)]
+        if len(st.reduced) != 1 or len(st.fetched) != 1:
+            return out
+        red, (cid, fview, ftok) = st.reduced[0], st.fetched[0]
+        out.append(('requested-attribute', cid is st.cid))
+        out.append(('reducer-gets-the-fetched-values-axis-and-filters', red.fields['data'] is ftok and red.fields['axis'] == axis and red.fields['rest'] == ('STAT', 'FINITE', 'POSITIVE', 'PCT')))
+        msk = red.fields['mask']
+        if stepped:
+            out.append(('stepped-view:mask-and-values-of-the-whole-view', msk is st.mask and (fview is st.view or fview == st.view)))
+            out.append(('stepped-view:result-not-padded', result is red))
+            return out
+        # the box
+        okm = isinstance(msk, _Tok) and msk.cls == 'submask' and msk.fields['of'] is st.mask and isinstance(msk.fields['key'], tuple) and len(msk.fields['key']) == nm and \
+            all(isinstance(k, PSlice) and k.step is None for k in msk.fields['key'])
+        out.append(('mask-cut-to-a-box', okm))
+        if okm:
+            out.append(('mask-box-is-the-bounding-box', S.And(*[S.And(k.start == st.lo[j], k.stop == st.hi[j]) for j, k in enumerate(msk.fields['key'])])))
+        okv = isinstance(fview, tuple) and len(fview) == st.d
+        out.append(('values-fetched-with-one-entry-per-data-axis', okv))
+        if okv:
+            for a, c in enumerate(st.v):
+                e = fview[a]
+                if c == 'i':
+                    out.append(('axis-%d-integer-kept' % a, e is st.entries[a]))
+                    continue
+                j = st.mask_axes.index(a)
+                oks = isinstance(e, PSlice) and e.step is None
+                out.append(('axis-%d-is-a-unit-slice' % a, oks))
+                if not oks:
+                    continue
+                if c == 's':
+                    b, en, _ = S.slice_indices(PSlice(st.entries[a].start, st.entries[a].stop, None), st.shape[a])
+                else:
+                    b = 0
+                # element k of the fetched box along this axis is element b + lo + k of the data = element lo + k of the mask
+                out.append(('axis-%d-values-on-the-box-of-the-viewed-array' % a, S.And(e.start == b + st.lo[j], e.stop == b + st.hi[j])))
+                out.append(('axis-%d-box-inside-the-data' % a, S.And(0 <= e.start, e.stop <= st.shape[a])))
+        if axis is None:
+            out.append(('no-axis:reducer-result-returned', result is red))
+            return out
+        okf = len(st.full) == 1 and result is st.full[0] and st.full[0].fields['value'] == 'NAN'
+        out.append(('padded:NaN-array-returned', okf))
+        if okf:
+            shp = st.full[0].fields['shape']
+            items = shp.items if isinstance(shp, PList) else list(shp)
+            out.append(('padded:reduced-shape-of-the-viewed-array', len(items) == len(kept) and S.And(*[x == st.m[j] for x, j in zip(items, kept)])))
+            oka = len(st.assigned) == 1 and st.assigned[0][0] is st.full[0] and st.assigned[0][2] is red and isinstance(st.assigned[0][1], tuple) and len(st.assigned[0][1]) == len(kept)
+            out.append(('padded:reduced-result-assigned-once', oka))
+            if oka:
+                out.append(('padded:placed-at-the-box', S.And(*[S.And(k.start == st.lo[j], k.stop == st.hi[j], k.step is None) for k, j in zip(st.assigned[0][1], kept)])))
+        return out
+
+
+def _unsup(msg):
+    raise Unsupported(msg)
+
+
+CONTRACTS.append(ComputeStatisticSubarray())
